@@ -302,9 +302,10 @@ func (fs *FS) Rename(oldname, newname string) error {
 			return err
 		}
 		txn, err := fs.store.Transaction(TransactionOptions{Mode: TransactionReadWrite})
-		if err == nil {
-			err = fs.setFileTxn(txn, newname, oldFile.fileData, contents)
+		if err != nil {
+			return err // no transaction was begun: there is nothing to abort
 		}
+		err = fs.setFileTxn(txn, newname, oldFile.fileData, contents)
 		if err == nil {
 			err = fs.setFileTxn(txn, oldname, nil, nil)
 		}
